@@ -22,8 +22,7 @@ def edits(diffpath):
     flush()
     return out
 def gostr(s):
-    assert '`' not in s, 'backtick'
-    return '`'+s+'`'
+    return ' + "`" + '.join('`'+part+'`' for part in s.split('`'))
 def emit(name,props,rule,keysub,why,diffpath,benign=False):
     es=edits(diffpath)
     parts=',\n\t\t\t'.join('{File: %s, Old: %s, New: %s}'%(json.dumps(f),gostr(o),gostr(n)) for f,o,n in es)
